@@ -2,6 +2,7 @@ import TFV.Properties.BinOps
 import TFV.Properties.Runs
 import TFV.Properties.Src.BinKernels
 import TFV.Properties.Src.BinKernels2
+import TFV.Properties.Src.GATrial
 #print axioms TFV.BinOps.C06_cross_parentage
 #print axioms TFV.BinOps.C06_cross_binary
 #print axioms TFV.BinOps.C06_empty
@@ -30,3 +31,5 @@ import TFV.Properties.Src.BinKernels2
 #print axioms TFV.SrcTie.C06_src_uniform_proportional_crossover
 #print axioms TFV.SrcTie.C06_src_uniform_rank_crossover
 #print axioms TFV.SrcTie.C06_src_empty_crossover
+#print axioms TFV.SrcTie.C06_src_ga_offspring
+#print axioms TFV.SrcTie.C06_src_ga_offspring_oob
